@@ -107,12 +107,19 @@ def expected(doc):
 def observed(v):
     return (v.is_valid, v.num_failures, v.num_rules_tested, sorted(tx(tuple(f.path)) for rt in v.rule_tests for f in rt.failures))
 d1 = {first_doc}
-ok = same('first validation', observed(sch.validate(d1)), expected(d1))
+v1 = sch.validate(d1)
+o1, s1 = observed(v1), v1.get_failures_string()
+ok = same('first validation', o1, expected(d1))
 {edit}
 d2 = {second_doc}
-ok = ok and same('second validation with the same schema object', observed(sch.validate(d2)), expected(d2))
+v2 = sch.validate(d2)
+o2 = observed(v2)
+ok = ok and same('second validation with the same schema object', o2, expected(d2))
+ok = ok and same('the first result, read again after the second validation', observed(v1), o1)
+ok = ok and note('the first report, read again', v1.get_failures_string() == s1)
 ok = ok and same('... and with the same rule objects in another schema, another order', observed(Schema(list(reversed(rules))).validate(d2)), expected(d2))
 ok = ok and same('first document again', observed(sch.validate({first_doc})), expected({first_doc}))
+ok = ok and same('the second result, read again after the third validation', observed(v2), o2)
 return ok
 """
     return mk_case(f"c06.reuse.{cid}", [("u1", "Union[int, bool, None]"), ("u2", "int")], body, pre=[f"BU({L}, u1, u2)"], stubs=["sym_repr"])
